@@ -3028,7 +3028,7 @@ func renderSlices(repo string) map[string]string {
 		{"JoinTail", []job{{"log.go", []string{"Join@join.publish"}}}},
 		{"Iterator", []job{{"log.go", []string{"sortedHeads", "Iterator"}}}},
 		{"Append", []job{{"log.go", []string{"getEveryPow2", "Append@append.locked", "Append@append.publish"}}}},
-		{"Views", []job{{"log.go", []string{"values", "ToJSONLog", "ToSnapshot"}}}},
+		{"Views", []job{{"log.go", []string{"values", "ToJSONLog", "ToSnapshot", "Heads"}}}},
 	}
 	out := map[string]string{}
 	for _, g := range groups {
@@ -3038,6 +3038,9 @@ func renderSlices(repo string) map[string]string {
 		var b strings.Builder
 		if g.name == "Iterator" || g.name == "Views" {
 			b.WriteString("import Generated.GenTraverse\n")
+		}
+		if g.name == "Views" {
+			b.WriteString("import Generated.GenIterator\n")
 		}
 		if g.name == "NewLog" {
 			b.WriteString("import Generated.GenHeads\nimport Generated.GenMisc\n")
